@@ -240,5 +240,62 @@ func C09(c *core.Ctx) {
 			}
 		}
 	}
+	c09SendBuf(c)
 	c09ws(c)
+}
+
+// c09SendBuf: histories of Sends of one goroutine on one client (no acks) -- messages that encode, and
+// messages that fail to encode after 0 .. several writer buffers of content -- against the pooled send
+// buffer model (coq/model/SendBuf.v): the sequence of Write payloads must be the model's, whichever
+// policy the pool follows (the theorem says the policy does not matter; the fine-grained phase runs this
+// with LIFO pools, the ordinary one with the real sync.Pool).
+func c09SendBuf(c *core.Ctx) {
+	r := c.Rng
+	cf := ccfg{host: []byte("h")}
+	for h := 0; h < c.N(60, 1500); h++ {
+		n := 2 + r.Intn(6)
+		var ops []cop
+		var reqs []string
+		for i := 0; i < n; i++ {
+			if r.Intn(3) == 0 {
+				before := []int{0, 10, 2030, 2049, 3000, 4090, 5000, 9000}[r.Intn(8)]
+				bad := &protocol.Message{Tag: "t", Timestamp: int64(i), Record: unencodableRecord(before, r.Intn(2))}
+				o := mkSend(cf, bad, -1)
+				o.enc = nil
+				// what msgp.Encode leaves in a buffer for this message before it gives up
+				left, obs := encode(bad)
+				if obs != "err" {
+					continue
+				}
+				ops = append(ops, o)
+				reqs = append(reqs, "x"+hx(left)+",0")
+			} else {
+				o := mkSend(cf, sizedMessage(r, sendKinds[r.Intn(len(sendKinds))], []int{5, 20, 300, 2040, 2500, 7000}[r.Intn(6)], ""), -1)
+				if o.enc == nil {
+					continue
+				}
+				ops = append(ops, o)
+				reqs = append(reqs, "x"+hx(o.enc)+",1")
+			}
+		}
+		if len(ops) == 0 {
+			continue
+		}
+		rs := runClientOps(cf, append([]cop{{kind: "C", dialOK: true, wfault: -1}}, ops...))
+		var writes []string
+		for _, x := range rs[1:] {
+			for _, e := range x.events {
+				if strings.HasPrefix(e, "w:") {
+					writes = append(writes, "x"+strings.Split(e, ":")[2])
+				}
+			}
+		}
+		c.Eval()
+		c.Hist(fmt.Sprintf("send-buffer history of %d sends", len(ops)))
+		c.Distinct("sendbuf " + fmt.Sprint(h, len(ops)))
+		obs := strings.Join(writes, ",")
+		for _, pol := range []string{"lifo", "fifo", "never"} {
+			c.Corr("c09-sendbuf", "sendbuf_seq", []string{pol, strings.Join(reqs, ";")}, obs)
+		}
+	}
 }
